@@ -348,18 +348,16 @@ func cmdCheck(args []string) int {
 		}
 		path, out := doReplay(vr)
 		if strings.HasPrefix(out, "violated") {
-			// the native run stops at the first failed assertion; it confirms the counterexample only if
-			// that assertion is one the solver refuted in this entry (not, say, a set-up assertion that
-			// fails natively because an engine-only stub is missing)
+			// the native run stops at the first failed assertion of the harness. It confirms the
+			// counterexample unless that assertion is one the engine evaluated on this very path and
+			// found to hold (e.g. a set-up assertion that fails natively only because an engine-only
+			// stub is missing): then the native run says nothing about this counterexample.
 			nl := strings.TrimPrefix(out, "violated label=")
-			ok := false
-			for _, o := range fresh {
-				if o.v.Entry == vr.v.Entry && strings.TrimPrefix(o.v.Label, "assert:") == nl {
-					ok = true
+			for _, p := range vr.v.Passed {
+				if p == nl {
+					out = "other-" + out
+					break
 				}
-			}
-			if !ok {
-				out = "other-" + out
 			}
 		}
 		nativePanicOnAssert := strings.HasPrefix(out, "panic") && !strings.HasPrefix(vr.v.Label, "panic")
